@@ -11,53 +11,40 @@ from checks import mergelib
 THEOREMS = ['Nbdime.C04_insert_valid', 'Nbdime.C04_remove_valid', 'Nbdime.C04_marker_cell_valid', 'Nbdime.C04_marker_cell_with_id_invalid_pre45']
 
 
-@vlib.classifier('marker-id-pre45')
-def _cls_marker(data, finding):
-    """every schema error is an `id` on a cell of a notebook that declares minor < 5, and that cell is
-    one the merge inserted as a conflict marker (markdown cell whose source is a marker span)"""
-    if data.get('kind') != 'invalid' or data.get('minor', 5) >= 5:
-        return False
-    m = dec(data['merged'])
-    bad = [c for c in m['cells'] if 'id' in c]
-    ok = all(c['cell_type'] == 'markdown' and c['source'].startswith('<span style="color:red"><b>') for c in bad)
-    rest = copy.deepcopy(m)
-    for c in rest['cells']:
-        c.pop('id', None)
-    return bool(bad) and ok and not gen_nb.schema_errors(rest)
-
-
-@vlib.classifier('takemax-minor')
-def _cls_minor(data, finding):
-    """the three inputs declare different minors, the merge took the maximum (>= 5), and the only
-    errors are missing ids on cells that came from a pre-4.5 side"""
-    if data.get('kind') != 'invalid' or len(set(data.get('minors', []))) < 2 or data.get('minor', 0) < 5:
-        return False
-    m = dec(data['merged'])
-    rest = copy.deepcopy(m)
-    n = 0
-    for c in rest['cells']:
-        if 'id' not in c:
-            n += 1
-            c['id'] = 'verif%03d' % n
-    return n > 0 and not gen_nb.schema_errors(rest)
-
-
-@vlib.classifier('attachment-level')
-def _cls_attach(data, finding):
-    """the only schema errors are LOCAL_<mime> / REMOTE_<mime> entries with non-bundle values placed directly in
-    a cell's attachments (a conflict on a mime type inside one attachment was treated as a conflict on a file name)"""
-    if data.get('kind') != 'invalid':
-        return False
-    m = dec(data['merged'])
-    hit = False
-    for c in m['cells']:
+def repair_known(m, minors):
+    """undo, on a copy, exactly the three recorded defects; returns (repaired notebook, tags that applied)"""
+    m = copy.deepcopy(m)
+    tags = []
+    minor = m.get('nbformat_minor', 0)
+    for c in m.get('cells', []):
+        if minor < 5 and 'id' in c and c.get('cell_type') == 'markdown' and str(c.get('source', '')).startswith('<span style="color:red"><b>'):
+            del c['id']
+            tags.append('F-markerid')
         at = c.get('attachments')
         if isinstance(at, dict):
             for k in list(at):
                 if k.startswith(('LOCAL_', 'REMOTE_')) and not isinstance(at[k], dict):
                     del at[k]
-                    hit = True
-    return hit and not gen_nb.schema_errors(m)
+                    tags.append('F-attach-level')
+    if minor >= 5 and len(set(minors)) > 1:
+        n = 0
+        for c in m.get('cells', []):
+            if 'id' not in c:
+                n += 1
+                c['id'] = 'verif%03d' % n
+                tags.append('F-minor')
+    return m, sorted(set(tags))
+
+
+def _known(tag):
+    def f(data, finding):
+        return data.get('kind') == 'invalid' and tag in data.get('repairs', []) and data.get('residual_valid') is True
+    return f
+
+
+vlib.classifier('marker-id-pre45')(_known('F-markerid'))
+vlib.classifier('takemax-minor')(_known('F-minor'))
+vlib.classifier('attachment-level')(_known('F-attach-level'))
 
 
 def check_merge(ctx, b, l, r, a, md, kinds):
@@ -72,9 +59,17 @@ def check_merge(ctx, b, l, r, a, md, kinds):
     ctx.case(canon(b) + canon(l) + canon(r) + json.dumps(a.key()), bool(decisions))
     errs = gen_nb.schema_errors(merged)
     if errs:
-        ctx.violation('merged notebook (declares 4.%s) is not schema-valid under %s: %s' % (merged.get('nbformat_minor'), a.key(), errs[:2]),
-                      {'kind': 'invalid', 'b': enc(b), 'l': enc(l), 'r': enc(r), 'strategy': a.key(), 'helper': md, 'merged': enc(merged),
-                       'minor': merged.get('nbformat_minor'), 'minors': [x['nbformat_minor'] for x in (b, l, r)], 'errors': errs, 'scenario': kinds})
+        minors = [x['nbformat_minor'] for x in (b, l, r)]
+        repaired, tags = repair_known(merged, minors)
+        data = {'kind': 'invalid', 'b': enc(b), 'l': enc(l), 'r': enc(r), 'strategy': a.key(), 'helper': md, 'merged': enc(merged),
+                'minor': merged.get('nbformat_minor'), 'minors': minors, 'errors': errs, 'scenario': kinds,
+                'repairs': tags, 'residual_valid': bool(tags) and not gen_nb.schema_errors(repaired)}
+        what = 'merged notebook (declares 4.%s) is not schema-valid under %s: %s' % (merged.get('nbformat_minor'), a.key(), errs[:2])
+        if data['residual_valid']:
+            for tag in tags:      # one report per recorded defect that is present
+                ctx.violation(what, dict(data, repairs=[tag]))
+        else:
+            ctx.violation(what, data)
     elif conflicts and len(ctx.cov['samples']) < 2:
         ctx.sample({'strategy': a.key(), 'scenario': kinds, 'conflicts': len(conflicts), 'merged_minor': merged.get('nbformat_minor')})
 
